@@ -175,45 +175,8 @@ def run(ctx):
     inner_heads = [cfg.node_of(f.iter) for f in ast.walk(gl) if isinstance(f, ast.For) and f is not gl and any(f is s_ for s_ in gbody)]
 
     def _created_on_edge(test, edge):
-        import itertools
-        ats = []
+        return created_on_edge(test, edge, lambda a_: isinstance(a_, ast.Call) and isinstance(a_.func, ast.Name) and a_.func.id in EMITS)
 
-        def collect(e):
-            if isinstance(e, ast.BoolOp):
-                for v in e.values:
-                    collect(v)
-            elif isinstance(e, ast.UnaryOp) and isinstance(e.op, ast.Not):
-                collect(e.operand)
-            else:
-                ats.append(e)
-        collect(test)
-        if len(ats) > 10:
-            return {True, False}
-        is_e = [isinstance(a, ast.Call) and isinstance(a.func, ast.Name) and a.func.id in EMITS for a in ats]
-        out = set()
-        for vals in itertools.product((False, True), repeat=len(ats)):
-            env = {id(a): v for a, v in zip(ats, vals)}
-            made = [False]
-
-            def ev(e):
-                if isinstance(e, ast.BoolOp):
-                    if isinstance(e.op, ast.And):
-                        for v in e.values:
-                            if not ev(v):
-                                return False
-                        return True
-                    for v in e.values:
-                        if ev(v):
-                            return True
-                    return False
-                if isinstance(e, ast.UnaryOp) and isinstance(e.op, ast.Not):
-                    return not ev(e.operand)
-                if is_e[[id(a) for a in ats].index(id(e))] and env[id(e)]:
-                    made[0] = True
-                return env[id(e)]
-            if ev(test) is edge:
-                out.add(made[0])
-        return out
     counts = set()
     nfeasible = 0
     for p in paths:
@@ -858,6 +821,48 @@ def _derives_from_is_equal(test, fn):
     return False
 
 
+def created_on_edge(test, edge, is_wrapper):
+    import itertools
+    ats = []
+
+    def collect(e):
+        if isinstance(e, ast.BoolOp):
+            for v in e.values:
+                collect(v)
+        elif isinstance(e, ast.UnaryOp) and isinstance(e.op, ast.Not):
+            collect(e.operand)
+        else:
+            ats.append(e)
+    collect(test)
+    if len(ats) > 10:
+        return {True, False}
+    is_e = [bool(is_wrapper(a)) for a in ats]
+    out = set()
+    for vals in itertools.product((False, True), repeat=len(ats)):
+        env = {id(a): v for a, v in zip(ats, vals)}
+        made = [False]
+
+        def ev(e):
+            if isinstance(e, ast.BoolOp):
+                if isinstance(e.op, ast.And):
+                    for v in e.values:
+                        if not ev(v):
+                            return False
+                    return True
+                for v in e.values:
+                    if ev(v):
+                        return True
+                return False
+            if isinstance(e, ast.UnaryOp) and isinstance(e.op, ast.Not):
+                return not ev(e.operand)
+            if is_e[[id(a) for a in ats].index(id(e))] and env[id(e)]:
+                made[0] = True
+            return env[id(e)]
+        if ev(test) is edge:
+            out.add(made[0])
+    return out
+
+
 def e_live_retry(ctx):
     """When the best head cannot create its event its flow is aborted - and _abort_flow also aborts that flow's children, whose heads can be candidates of the same group.
     Before the choice is repeated, the candidates are filtered for liveness again: otherwise a head of a flow that has just been aborted can win, its action is started
@@ -878,9 +883,11 @@ def e_live_retry(ctx):
         and any(isinstance(c, ast.Compare) and "status" in src(c) and "ACTIVE" in src(c) for c in ast.walk(n.ast.value)) and any(n.ast is x for x in ast.walk(w))]
     ctx.floor("C05.e.live-retry", SM, "attempts to create the winner's event inside the retry loop", len(emit_tests), 1)
     ok = True
+    is_w = (lambda a_: isinstance(a_, ast.Call) and isinstance(a_.func, ast.Name) and a_.func.id.startswith("_try_"))
     for et in emit_tests:
         for m, lab in et.succ:
-            if lab is False:
+            # edges on which the attempt cannot have succeeded (whatever the polarity / spelling of the test)
+            if lab in (True, False) and True not in created_on_edge(et.ast, lab, is_w):
                 for pk in picks:
                     if pk in cfg.reachable([m]) and not cfg.must_pass(m, pk, live, include_a=True):
                         ok = False
